@@ -141,6 +141,26 @@ def resolver_oracle(ix: Index, scn: dict) -> list[Violation]:
                 out.append(Violation("error-class", str(err.get("cls")), f"resolution of {hosts} raised {err.get('cls')}: {err.get('text')}"))
             elif want is not None and not open_:
                 out.append(Violation("failed-resolvable", str(err.get("cls")), f"resolution of {hosts} raised {err.get('cls')}: {err.get('text')} although the expected result is {want}"))
+    # the socket-level address of every TCP connect attempt: (address, port) for IPv4, (address, port, flowinfo 0, scope id) for
+    # IPv6, with the scope id of the configured literal
+    for ev in ix.h:
+        if ev[3] == "sock_connect" and "sockaddr" in ev[4]:
+            sa = ev[4]["sockaddr"]
+            if ":" in str(sa[0]):
+                want_scopes = {int(h.partition("%")[2]) if h.partition("%")[2].isdigit() else 0 for h in scn.get("client", {}).get("addresses", []) if classify(h) == "literal" and ":" in h and h.partition("%")[0] == sa[0]}
+                if len(sa) != 4 or sa[2] != 0 or (want_scopes and sa[3] not in want_scopes):
+                    out.append(Violation("connect-sockaddr", "", f"TCP connect to {sa}: want (address, port, 0, scope id in {sorted(want_scopes) or 'the resolved one'})"))
+                    break
+            elif len(sa) != 2:
+                out.append(Violation("connect-sockaddr", "v4", f"TCP connect to {sa}: an IPv4 socket address has two fields"))
+                break
+    # an application-supplied instance is the one that is used, for every lookup: the library never creates one next to it
+    if any(op.do == "zm.new" and op.ok and op.value for op in ix.ops) or scn.get("client", {}).get("zeroconf"):
+        if not any(op.do == "zm.new" and op.ok and not op.value for op in ix.ops):
+            for ev in ix.h:
+                if ev[3] == "zc_new" and ev[4]["owner"] == "lib":
+                    out.append(Violation("created-despite-supplied", "", f"the library created its own zeroconf instance {ev[4]['zc']} although the application had supplied one"))
+                    break
     # ownership, over the whole history
     created: dict = {}
     closed: set = set()
@@ -294,6 +314,8 @@ def gen_client_resolve(rng: random.Random) -> dict:
     for e in net["mdns"].values():
         e["v4"], e["v6"] = (["10.0.0.5"] if e["v4"] or e["v6"] else []), []
     net["connect"] = {"*": [{"outcome": pick(rng, ["ok", "refused"]), "latency": 0.001}]}
+    if rng.random() < 0.3:
+        hosts.insert(rng.randrange(len(hosts) + 1), pick(rng, ["fe80::1%3", "2001:db8::2%12", "fd00::5"]))  # (scoped literals reach the socket)
     knobs = gen_knobs(rng)
     if rng.random() < 0.4:
         knobs["zc_close_delay"] = pick(rng, [0.1, 0.5])
